@@ -66,8 +66,10 @@ def match(bs, truth, path='', out=None, depth=0):
     # the heap block of an Rc/Arc (what `*rc` evaluates to in BugStalker): the payload is its value/data member
     if bs.get('k') == 'struct':
         names = [n for n, _ in bs.get('m', [])]
+        truth_is_such_a_block = isinstance(truth, dict) and 's' in truth and \
+            sorted(f[0] for f in truth.get('f', [])) in (['strong', 'value', 'weak'], ['data', 'strong', 'weak'])
         if 'strong' in names and 'weak' in names and ('value' in names or 'data' in names) and len(names) == 3 \
-                and not (isinstance(truth, dict) and 's' in truth):
+                and not truth_is_such_a_block:
             inner = [x for n, x in bs['m'] if n in ('value', 'data')][0]
             return match(inner, truth, path + '.value', out, depth)
     # a reference variable whose canonical form is the pointee (method resolution picks T's impl for `&T` receivers)
